@@ -301,9 +301,10 @@ def c11_cases(tier, rng):
         yield apply(n, e, cb)
     # long directed paths (more nodes than any fixed-size stack, mask or table would hold): chains, a cycle, a spine with leaves,
     # ladders - the search for the longest path goes as deep as the path is long
-    deep = [K.chain(k) for k in ((65, 70, 130) if tier == "quick" else (64, 65, 66, 70, 129, 130, 257, 300))]
-    deep += [K.canon([(i, (i + 1) % 70) for i in range(70)]), K.ladder(70, 2)]
-    deep.append(K.canon([(i, i + 1) for i in range(74)] + [(i, 100 + i) for i in range(0, 74, 5)]))
+    # (TLC's evaluation of the layer-1 predicates is cubic in the path length: the quick tier stays below 80 nodes)
+    deep = [K.chain(k) for k in ((65, 70) if tier == "quick" else (64, 65, 66, 70, 129, 130, 257))]
+    deep += [K.canon([(i, (i + 1) % 70) for i in range(70)])] + ([K.ladder(70, 2)] if tier != "quick" else [])
+    deep.append(K.canon([(i, i + 1) for i in range(66)] + [(i, 100 + i) for i in range(0, 66, 6)]))
     for n, e in deep:
         for p1 in ("greedy", "dfs"):
             yield apply(n, e, dict(p1=p1, p2="lp", p4="valign", p5="straight", size="fixed", ls=3))
